@@ -318,8 +318,14 @@ func TestWorker(t *testing.T) {
 			binary.LittleEndian.PutUint64(b[:], res.Hash)
 			hashes.Write(b[:])
 		}
-		if len(out.Samples) < 2 && res.Nontrivial {
-			out.Samples = append(out.Samples, map[string]interface{}{"case": spec, "scenario": describeScenario(res.Scenario), "observed": observedLines(res)})
+		if len(out.Samples) < 2 && res.Nontrivial && len(res.Scenario.Hist.Units) <= 12 {
+			obs := observedLines(res)
+			for i := range obs {
+				if len(obs[i]) > 1500 {
+					obs[i] = obs[i][:1500] + "..."
+				}
+			}
+			out.Samples = append(out.Samples, map[string]interface{}{"case": spec, "scenario": describeScenario(res.Scenario), "observed": obs})
 		}
 		if len(res.Violations) > 0 {
 			seen := map[string]bool{}
